@@ -188,3 +188,24 @@ def thin_unfold(facts, crate, call, depth=4):
             return n
         call = norm.map_tree(copy.deepcopy(inner), sub)
     return hir.callee(call), call.get("args", [])
+
+
+def choice_codec(facts):
+    """from_choice on each of the four ColorChoice values and to_choice on 0..=15, by abstract evaluation:
+    ({variant: code}, {code: variant or None}) — a match, a cast of the discriminant, a const table all read the same."""
+    import abseval
+    enc, dec = {}, {}
+    for v in ("Auto", "AlwaysAnsi", "Always", "Never"):
+        r = abseval.Evaluator(facts, "colorchoice", {}).call_fn("colorchoice", "colorchoice::AtomicChoice::from_choice", [("enum", "colorchoice::ColorChoice::" + v)])
+        if r[0] != "int":
+            raise Unrecognised(f"from_choice({v}) evaluates to {str(r)[:60]}")
+        enc[v] = r[1]
+    for i in range(16):
+        r = abseval.Evaluator(facts, "colorchoice", {}).call_fn("colorchoice", "colorchoice::AtomicChoice::to_choice", [("int", i)])
+        if r == ("none",):
+            dec[i] = None
+        elif r[0] == "some" and r[1][0] == "enum":
+            dec[i] = r[1][1].split("::")[-1]
+        else:
+            raise Unrecognised(f"to_choice({i}) evaluates to {str(r)[:60]}")
+    return enc, dec
